@@ -1,6 +1,7 @@
 """family `soa` (C18): the struct-of-arrays macro bodies and `alpha::Iter` / `Extend` / `FromIterator` of alpha.rs, re-translated from the current
 source text by tools/rust2lean_soa.py into lean/PaletteModel/Gen/BodiesSoa.lean; lean/PaletteProofs/Tie_Soa.lean proves each translated body equal to
-the model function of PaletteModel/Soa.lean / SoaNested.lean (`tie_<name>`).  A registered body that leaves the translated subset or disappears, a
+the model function of PaletteModel/Soa.lean / SoaNested.lean (`tie_<name>`).  A registered body that leaves the translated subset or disappears, a method that
+appears in a translated impl block without being registered (a new override such as `Iterator::nth`: `rust2lean_soa.MethodSets`), a
 macro arm that no longer matches its invocation, or a translated body without `tie_` theorem stops the run (`broken[extraction]`)."""
 import os, sys
 
